@@ -1,9 +1,19 @@
 /-
-  PyFV.Lemmas.Limiters — helper lemmas for property C13.
+  PyFV.Lemmas.Limiters — helper lemmas and closing tactics for property C13.
+
+  The generated limiter terms `PyFV.Gen.X` follow the SPELLING of the Python source.  The theorems of
+  `PyFV.Props.C13` therefore never rely on that spelling: `X_eq_spec` is closed semantically (tactics `lim_ac`,
+  `lim_cases` below, built on `geq_ring` / `geq_field` of `PyFV.Lemmas.GenEqTac`), and every other property of a
+  limiter (`ψ(1) = 1`, the TVD bounds, `ψ = 0` for `r ≤ 0`, the value at the pole) is proved HERE once for the
+  hand-written closed form `Spec.X` (section "properties of the published closed forms") and transported through
+  `X_eq_spec`.  The denominators are shown non-zero by order arguments (`linarith` / `nlinarith` normalise the
+  polynomial spelling), not by matching a fixed term.
 -/
 import PyFV.Gen.Limiters
 import PyFV.Model.LimiterSpec
 import PyFV.Model.Terms
+import PyFV.Lemmas.GenEqTac
+import Mathlib.Tactic.SplitIfs
 import Mathlib.Tactic.Ring
 import Mathlib.Tactic.Linarith
 import Mathlib.Tactic.Positivity
@@ -16,6 +26,27 @@ set_option linter.unusedVariables false
 namespace PyFV.Lim
 
 variable {α : Type} [Field α] [LinearOrder α] [IsStrictOrderedRing α]
+
+/-! ### closing tactics (semantic, independent of the spelling of the generated terms) -/
+
+/-- `lhs = rhs` between clipping expressions: equal up to ring-normalisation of the arguments of `min` / `max` /
+    `|·|` and up to associativity / commutativity of `min` and of `max`.  Not a decision procedure for the lattice:
+    two expressions that differ by more than AC (a changed constant, `min` ↔ `max`, a dropped clip) stay open. -/
+macro "lim_ac" : tactic => `(tactic|
+  first
+  | geq_ring
+  | (simp only [min_comm, min_left_comm, min_assoc, max_comm, max_left_comm, max_assoc] <;> done)
+  | (ring_nf <;> simp only [min_comm, min_left_comm, min_assoc, max_comm, max_left_comm, max_assoc] <;> done)
+  | (simp only [div_eq_mul_inv, mul_inv, inv_inv, inv_neg, inv_pow, inv_one, one_mul, mul_one] <;> ring_nf <;>
+       simp only [min_comm, min_left_comm, min_assoc, max_comm, max_left_comm, max_assoc] <;> done))
+
+/-- split every `if` (the indicators `Gen.ind`, the case distinctions of `Spec`), discard the contradictory cases
+    by linear arithmetic and close the others with `geq_field` / `lim_ac` -/
+macro "lim_cases" : tactic => `(tactic|
+  (split_ifs <;> first
+    | (exfalso; linarith)
+    | geq_field
+    | lim_ac))
 
 theorem ind_true {p : Prop} [Decidable p] (h : p) : (Gen.ind p : α) = 1 := if_pos h
 theorem ind_false {p : Prop} [Decidable p] (h : ¬ p) : (Gen.ind p : α) = 0 := if_neg h
@@ -77,6 +108,222 @@ theorem clip_bounds {r x : α} (hr : 0 < r) (h2 : x ≤ 2 * r) (h4 : x ≤ 4) :
   ⟨le_max_left _ _, max_le (le_min (by linarith) (by norm_num)) (le_min h2 h4)⟩
 
 theorem clip_nonpos {x : α} (h : x ≤ 0) : max 0 x = 0 := max_eq_left h
+
+/-! ### properties of the published closed forms (`PyFV.Spec`) — independent of the generated terms -/
+
+section SpecProps
+
+theorem spec_CHARM_one : Spec.CHARM (1 : α) = 1 := by
+  rw [Spec.CHARM, if_pos one_pos]; norm_num
+
+theorem spec_CHARM_bounds {r : α} (hr : 0 < r) : 0 ≤ Spec.CHARM r ∧ Spec.CHARM r ≤ min (2 * r) 4 := by
+  rw [Spec.CHARM, if_pos hr]
+  refine ⟨by positivity, le_min ?_ ?_⟩
+  · rw [div_le_iff₀ (by positivity)]
+    nlinarith [mul_pos hr hr, mul_pos (mul_pos hr hr) hr]
+  · rw [div_le_iff₀ (by positivity)]
+    nlinarith [mul_pos hr hr]
+
+theorem spec_CHARM_nonpos {r : α} (hr : r ≤ 0) : Spec.CHARM r = 0 := by
+  rw [Spec.CHARM, if_neg (not_lt.mpr hr)]
+
+theorem spec_HCUS_one : Spec.HCUS (1 : α) = 1 := by
+  rw [Spec.HCUS_of_ne (by intro h; linarith)]; norm_num
+
+theorem spec_HCUS_bounds {r : α} (hr : 0 < r) : 0 ≤ Spec.HCUS r ∧ Spec.HCUS r ≤ min (2 * r) 4 := by
+  rw [Spec.HCUS_of_ne (by intro h; linarith), add_abs_of_pos hr]
+  refine ⟨by positivity, le_min ?_ ?_⟩
+  · rw [div_le_iff₀ (by positivity)]
+    nlinarith [mul_pos hr hr]
+  · rw [div_le_iff₀ (by positivity)]
+    nlinarith [mul_pos hr hr]
+
+theorem spec_HCUS_nonpos {r : α} (hr : r ≤ 0) : Spec.HCUS r = 0 := by
+  unfold Spec.HCUS
+  split_ifs
+  · rfl
+  · rw [add_abs_of_nonpos hr]; simp
+
+theorem spec_HQUICK_one : Spec.HQUICK (1 : α) = 1 := by
+  rw [Spec.HQUICK_of_ne (by intro h; linarith)]; norm_num
+
+theorem spec_HQUICK_bounds {r : α} (hr : 0 < r) : 0 ≤ Spec.HQUICK r ∧ Spec.HQUICK r ≤ min (2 * r) 4 := by
+  rw [Spec.HQUICK_of_ne (by intro h; linarith), add_abs_of_pos hr]
+  refine ⟨by positivity, le_min ?_ ?_⟩
+  · rw [div_le_iff₀ (by positivity)]
+    nlinarith [mul_pos hr hr]
+  · rw [div_le_iff₀ (by positivity)]
+    nlinarith [mul_pos hr hr]
+
+theorem spec_HQUICK_nonpos {r : α} (hr : r ≤ 0) : Spec.HQUICK r = 0 := by
+  unfold Spec.HQUICK
+  split_ifs
+  · rfl
+  · rw [add_abs_of_nonpos hr]; simp
+
+theorem spec_ospre_one : Spec.ospre (1 : α) = 1 := by
+  rw [Spec.ospre]; norm_num
+
+theorem spec_ospre_bounds {r : α} (hr : 0 < r) : 0 ≤ Spec.ospre r ∧ Spec.ospre r ≤ min (2 * r) 4 := by
+  rw [Spec.ospre]
+  refine ⟨by positivity, le_min ?_ ?_⟩
+  · rw [div_le_iff₀ (by positivity)]
+    nlinarith [mul_pos hr hr, mul_pos (mul_pos hr hr) hr]
+  · rw [div_le_iff₀ (by positivity)]
+    nlinarith [mul_pos hr hr]
+
+theorem spec_VanLeer_one : Spec.VanLeer (1 : α) = 1 := by
+  rw [Spec.VanLeer, abs_one]; norm_num
+
+theorem spec_VanLeer_bounds {r : α} (hr : 0 < r) : 0 ≤ Spec.VanLeer r ∧ Spec.VanLeer r ≤ min (2 * r) 4 := by
+  rw [Spec.VanLeer, abs_of_pos hr]
+  refine ⟨by positivity, le_min ?_ ?_⟩
+  · rw [div_le_iff₀ (by positivity)]
+    nlinarith [mul_pos hr hr]
+  · rw [div_le_iff₀ (by positivity)]
+    nlinarith [mul_pos hr hr]
+
+theorem spec_VanLeer_nonpos {r : α} (hr : r ≤ 0) : Spec.VanLeer r = 0 := by
+  rw [Spec.VanLeer, add_abs_of_nonpos hr]; simp
+
+theorem spec_VanAlbada1_one : Spec.VanAlbada1 (1 : α) = 1 := by
+  rw [Spec.VanAlbada1]; norm_num
+
+theorem spec_VanAlbada1_bounds {r : α} (hr : 0 < r) :
+    0 ≤ Spec.VanAlbada1 r ∧ Spec.VanAlbada1 r ≤ min (2 * r) 4 := by
+  rw [Spec.VanAlbada1]
+  refine ⟨by positivity, le_min ?_ ?_⟩
+  · rw [div_le_iff₀ (by positivity)]
+    nlinarith [mul_pos hr hr, mul_pos (mul_pos hr hr) hr, sq_nonneg (r - 1),
+      mul_nonneg hr.le (sq_nonneg (2 * r - 1))]
+  · rw [div_le_iff₀ (by positivity)]
+    nlinarith [mul_pos hr hr, sq_nonneg (r - 1)]
+
+theorem spec_VanAlbada2_one : Spec.VanAlbada2 (1 : α) = 1 := by
+  rw [Spec.VanAlbada2]; norm_num
+
+theorem spec_VanAlbada2_bounds {r : α} (hr : 0 < r) :
+    0 ≤ Spec.VanAlbada2 r ∧ Spec.VanAlbada2 r ≤ min (2 * r) 4 := by
+  rw [Spec.VanAlbada2]
+  refine ⟨by positivity, le_min ?_ ?_⟩
+  · rw [div_le_iff₀ (by positivity)]
+    nlinarith [mul_pos hr hr, mul_pos (mul_pos hr hr) hr]
+  · rw [div_le_iff₀ (by positivity)]
+    nlinarith [mul_pos hr hr, sq_nonneg (r - 1), sq_nonneg (2 * r - 1)]
+
+theorem spec_MinMod_one : Spec.MinMod (1 : α) = 1 := by
+  rw [Spec.MinMod]; norm_num
+
+theorem spec_MinMod_bounds {r : α} (hr : 0 < r) : 0 ≤ Spec.MinMod r ∧ Spec.MinMod r ≤ min (2 * r) 4 := by
+  rw [Spec.MinMod]
+  exact clip_bounds hr ((min_le_right _ _).trans (by linarith))
+    ((min_le_left _ _).trans (by norm_num))
+
+theorem spec_MinMod_nonpos {r : α} (hr : r ≤ 0) : Spec.MinMod r = 0 := by
+  rw [Spec.MinMod]
+  exact clip_nonpos ((min_le_right _ _).trans hr)
+
+theorem spec_SUPERBEE_one : Spec.SUPERBEE (1 : α) = 1 := by
+  unfold Spec.SUPERBEE; norm_num
+
+theorem spec_SUPERBEE_bounds {r : α} (hr : 0 < r) :
+    0 ≤ Spec.SUPERBEE r ∧ Spec.SUPERBEE r ≤ min (2 * r) 4 := by
+  unfold Spec.SUPERBEE
+  exact clip_bounds hr
+    (max_le (min_le_left _ _) ((min_le_left _ _).trans (by linarith)))
+    (max_le ((min_le_right _ _).trans (by norm_num)) ((min_le_right _ _).trans (by norm_num)))
+
+theorem spec_SUPERBEE_nonpos {r : α} (hr : r ≤ 0) : Spec.SUPERBEE r = 0 := by
+  unfold Spec.SUPERBEE
+  exact clip_nonpos
+    (max_le ((min_le_left _ _).trans (by linarith)) ((min_le_left _ _).trans hr))
+
+theorem spec_Osher_one : Spec.Osher (1 : α) = 1 := by
+  unfold Spec.Osher; norm_num
+
+theorem spec_Osher_bounds {r : α} (hr : 0 < r) : 0 ≤ Spec.Osher r ∧ Spec.Osher r ≤ min (2 * r) 4 := by
+  unfold Spec.Osher
+  exact clip_bounds hr ((min_le_left _ _).trans (by linarith))
+    ((min_le_right _ _).trans (by norm_num))
+
+theorem spec_Osher_nonpos {r : α} (hr : r ≤ 0) : Spec.Osher r = 0 := by
+  unfold Spec.Osher
+  exact clip_nonpos ((min_le_left _ _).trans hr)
+
+theorem spec_Sweby_one : Spec.Sweby (1 : α) = 1 := by
+  unfold Spec.Sweby; norm_num
+
+theorem spec_Sweby_bounds {r : α} (hr : 0 < r) : 0 ≤ Spec.Sweby r ∧ Spec.Sweby r ≤ min (2 * r) 4 := by
+  unfold Spec.Sweby
+  exact clip_bounds hr
+    (max_le ((min_le_left _ _).trans (by linarith)) ((min_le_left _ _).trans (by linarith)))
+    (max_le ((min_le_right _ _).trans (by norm_num)) ((min_le_right _ _).trans (by norm_num)))
+
+theorem spec_Sweby_nonpos {r : α} (hr : r ≤ 0) : Spec.Sweby r = 0 := by
+  unfold Spec.Sweby
+  exact clip_nonpos
+    (max_le ((min_le_left _ _).trans (by linarith)) ((min_le_left _ _).trans hr))
+
+theorem spec_smart_one : Spec.smart (1 : α) = 1 := by
+  unfold Spec.smart; norm_num
+
+theorem spec_smart_bounds {r : α} (hr : 0 < r) : 0 ≤ Spec.smart r ∧ Spec.smart r ≤ min (2 * r) 4 := by
+  unfold Spec.smart
+  exact clip_bounds hr (min_le_left _ _) ((min_le_right _ _).trans (min_le_right _ _))
+
+theorem spec_smart_nonpos {r : α} (hr : r ≤ 0) : Spec.smart r = 0 := by
+  unfold Spec.smart
+  exact clip_nonpos ((min_le_left _ _).trans (by linarith))
+
+theorem spec_Koren_one : Spec.Koren (1 : α) = 1 := by
+  unfold Spec.Koren; norm_num
+
+theorem spec_Koren_bounds {r : α} (hr : 0 < r) : 0 ≤ Spec.Koren r ∧ Spec.Koren r ≤ min (2 * r) 4 := by
+  unfold Spec.Koren
+  exact clip_bounds hr (min_le_left _ _)
+    (((min_le_right _ _).trans (min_le_right _ _)).trans (by norm_num))
+
+theorem spec_Koren_nonpos {r : α} (hr : r ≤ 0) : Spec.Koren r = 0 := by
+  unfold Spec.Koren
+  exact clip_nonpos ((min_le_left _ _).trans (by linarith))
+
+theorem spec_MUSCL_one : Spec.MUSCL (1 : α) = 1 := by
+  unfold Spec.MUSCL; norm_num
+
+theorem spec_MUSCL_bounds {r : α} (hr : 0 < r) : 0 ≤ Spec.MUSCL r ∧ Spec.MUSCL r ≤ min (2 * r) 4 := by
+  unfold Spec.MUSCL
+  exact clip_bounds hr (min_le_left _ _)
+    (((min_le_right _ _).trans (min_le_right _ _)).trans (by norm_num))
+
+theorem spec_MUSCL_nonpos {r : α} (hr : r ≤ 0) : Spec.MUSCL r = 0 := by
+  unfold Spec.MUSCL
+  exact clip_nonpos ((min_le_left _ _).trans (by linarith))
+
+theorem spec_QUICK_one : Spec.QUICK (1 : α) = 1 := by
+  unfold Spec.QUICK; norm_num
+
+theorem spec_QUICK_bounds {r : α} (hr : 0 < r) : 0 ≤ Spec.QUICK r ∧ Spec.QUICK r ≤ min (2 * r) 4 := by
+  unfold Spec.QUICK
+  exact clip_bounds hr (min_le_left _ _)
+    (((min_le_right _ _).trans (min_le_right _ _)).trans (by norm_num))
+
+theorem spec_QUICK_nonpos {r : α} (hr : r ≤ 0) : Spec.QUICK r = 0 := by
+  unfold Spec.QUICK
+  exact clip_nonpos ((min_le_left _ _).trans (by linarith))
+
+theorem spec_UMIST_one : Spec.UMIST (1 : α) = 1 := by
+  unfold Spec.UMIST; norm_num
+
+theorem spec_UMIST_bounds {r : α} (hr : 0 < r) : 0 ≤ Spec.UMIST r ∧ Spec.UMIST r ≤ min (2 * r) 4 := by
+  unfold Spec.UMIST
+  exact clip_bounds hr (min_le_left _ _)
+    (((min_le_right _ _).trans ((min_le_right _ _).trans (min_le_right _ _))).trans (by norm_num))
+
+theorem spec_UMIST_nonpos {r : α} (hr : r ≤ 0) : Spec.UMIST r = 0 := by
+  unfold Spec.UMIST
+  exact clip_nonpos ((min_le_left _ _).trans (by linarith))
+
+end SpecProps
 
 /-! ### `fsign` -/
 
